@@ -20,7 +20,7 @@ RULE = ("(a) mappings word-like key -> non-empty list of non-empty strings over 
         "or whitespace character; (b) every string over the alphabet {; = SP \" , a % 1} up to length 6 (quick) / 9 "
         "(thorough) through the inferring parser, up to length 4 through every supplied dialect, random strings to length "
         "200; non-trivial = contains a structural character; distinct by mapping+dialect / by string")
-REQUIRED = ["(b) long-run strings parsed under a watchdog", "(a) round trips under a dialect whose flags are truthy/falsy non-bool values",
+REQUIRED = ["(a) same text parsed again after the dialect object was edited in place", "(b) long-run strings parsed under a watchdog", "(a) round trips under a dialect whose flags are truthy/falsy non-bool values",
             "interludes with ignore_url_escape_characters switched on and restored", "(a) print/parse round trips", "(b) strings parsed (inferred)", "(b) strings parsed (supplied dialect)",
             "_reconstruct contract evaluations"]
 ASSUMPTIONS = [
@@ -158,6 +158,8 @@ def execute(ctx, case):
         roundtrip(ctx, case)
     elif kind == "total":
         total(ctx, case["s"], case.get("dialect"), case)
+    elif kind == "same_object":
+        same_object(ctx, case)
 
 
 def roundtrip(ctx, case):
@@ -199,6 +201,36 @@ def roundtrip(ctx, case):
         return
     for v in contracts.drain():
         ctx.violation(case, v)
+
+
+def same_object(ctx, case):
+    """One dialect dictionary OBJECT whose content the caller edits in place between two parses of the same text: the
+    second parse is what a fresh copy of the edited dictionary gives (parsing depends on what the dialect says, not on
+    which object says it)."""
+    from gffutils.feature import Feature, feature_from_line
+
+    d_obj = dict(case["dialect"])
+    attrs = {k: list(v) for k, v in case["mapping"]}
+    try:
+        line = str(Feature(seqid="chr1", source="s", featuretype="gene", start=10, end=20, score=".", strand="+", frame=".",
+                           attributes=attrs, dialect=d_obj))
+        first = feature_from_line(line, dialect=d_obj)
+        [list(first.attributes[k]) for k in first.attributes.keys()]
+        for k, v in case["edit"].items():
+            d_obj[k] = v
+        second = feature_from_line(line, dialect=d_obj)
+        fresh = feature_from_line(line, dialect=dict(d_obj))
+    except Exception as ex:
+        ctx.violation(case, {"why": "parsing under a dialect object edited in place raised %r" % (ex,)})
+        return
+    ctx.mon("(a) same text parsed again after the dialect object was edited in place")
+    a = [[k, list(second.attributes[k])] for k in second.attributes.keys()]
+    b = [[k, list(fresh.attributes[k])] for k in fresh.attributes.keys()]
+    if a != b:
+        ctx.violation(case, {"why": "after the dialect dictionary was edited in place, parsing the same text with the same object "
+                                    "differs from parsing it with a fresh copy of that dictionary", "printed": line,
+                             "same_object": a, "fresh_copy": b, "edit": case["edit"]})
+    contracts.drain()
 
 
 _slowest = [0.0]
@@ -360,6 +392,19 @@ def run(ctx):
         text = "".join("".join(v) for _, v in m)
         nontriv = any(c in R.RESERVED_LIST or c.isspace() or c == '"' for c in text)
         ctx.case((d, m), nontriv, sample=case, cls="roundtrip fmt=%s kv=%r quoted=%s" % (d["fmt"], d["keyval separator"], d["quoted GFF2 values"]))
+    for _ in range(ctx.budget(1500, 60000)):
+        d = rng.choice(ds)
+        m = mapping(rng, d["fmt"] == "gtf")
+        if rng.random() < 0.5:
+            # values that mean something else under the edited dialect: literal quotes, separators of the other spelling
+            m[0][1][0] = rng.choice(['"x"', 'a; b', 'a ;b', 'p=q', 'k v']) if d["fmt"] != "gtf" else rng.choice(["a=b", "x  y", "p q"])
+        edit = rng.choice([{"quoted GFF2 values": not d["quoted GFF2 values"]}, {"repeated keys": not d["repeated keys"]},
+                           {"field separator": rng.choice([x for x in (";", "; ", " ; ") if x != d["field separator"]])},
+                           {"trailing semicolon": not d["trailing semicolon"]},
+                           {"keyval separator": "=" if d["keyval separator"] == " " else " ", "fmt": "gff3"}])
+        case = {"kind": "same_object", "dialect": d, "mapping": m, "edit": edit}
+        same_object(ctx, case)
+        ctx.case(("same_object", d, m, sorted(edit.items())), True, cls="dialect object edited in place")
     # every reserved/special character alone, at the ends and in the middle, under every dialect
     for i, (d, ch) in enumerate(itertools.product(ds, SPECIAL + [chr(c) for c in range(32)])):
         if not ctx.mine(i):
